@@ -95,7 +95,9 @@ func (p party) sv2() oprf.PartialObliviousServer {
 	return oprf.NewPartialObliviousServer(p.si.suite, p.sk)
 }
 
-func (p party) blindDet(pk *oprf.PublicKey, inputs [][]byte, blinds []oprf.Blind) (*oprf.FinalizeData, *oprf.EvaluationRequest, error) {
+func (p party) blindDet(pk *oprf.PublicKey, inputs [][]byte, blinds []oprf.Blind) (fd *oprf.FinalizeData, req *oprf.EvaluationRequest, err error) {
+	sn := new(opSnap).bytesList("inputs", inputs).scalars("blinds", blinds)
+	defer func() { noteOperands(sn, "DeterministicBlind") }()
 	switch p.mode {
 	case 0:
 		return p.cl0().DeterministicBlind(inputs, blinds)
@@ -106,7 +108,9 @@ func (p party) blindDet(pk *oprf.PublicKey, inputs [][]byte, blinds []oprf.Blind
 	}
 }
 
-func (p party) blindRand(inputs [][]byte) (*oprf.FinalizeData, *oprf.EvaluationRequest, error) {
+func (p party) blindRand(inputs [][]byte) (fd *oprf.FinalizeData, req *oprf.EvaluationRequest, err error) {
+	sn := new(opSnap).bytesList("inputs", inputs)
+	defer func() { noteOperands(sn, "Blind") }()
 	switch p.mode {
 	case 0:
 		return p.cl0().Blind(inputs)
@@ -117,7 +121,14 @@ func (p party) blindRand(inputs [][]byte) (*oprf.FinalizeData, *oprf.EvaluationR
 	}
 }
 
-func (p party) evaluate(req *oprf.EvaluationRequest, info []byte) (*oprf.Evaluation, error) {
+func keyBytes(sk *oprf.PrivateKey) []byte {
+	b, _ := sk.MarshalBinary()
+	return b
+}
+
+func (p party) evaluate(req *oprf.EvaluationRequest, info []byte) (ev *oprf.Evaluation, err error) {
+	sn := new(opSnap).elems("blinded", req.Elements).bytes("info", info).add("sk", func() []byte { return keyBytes(p.sk) })
+	defer func() { noteOperands(sn, "Evaluate") }()
 	switch p.mode {
 	case 0:
 		return p.sv0().Evaluate(req)
@@ -129,18 +140,34 @@ func (p party) evaluate(req *oprf.EvaluationRequest, info []byte) (*oprf.Evaluat
 }
 
 // finalize with a client holding public key pk
-func (p party) finalize(pk *oprf.PublicKey, fd *oprf.FinalizeData, ev *oprf.Evaluation, info []byte) ([][]byte, error) {
+func (p party) finalize(pk *oprf.PublicKey, fd *oprf.FinalizeData, ev *oprf.Evaluation, info []byte) (out [][]byte, err error) {
+	sn := new(opSnap).elems("evaluated", ev.Elements).bytes("info", info)
+	if pk != nil {
+		sn.add("pk", func() []byte { b, _ := pk.MarshalBinary(); return b })
+	}
+	if ev.Proof != nil {
+		sn.add("proof", func() []byte { b, _ := ev.Proof.MarshalBinary(); return b })
+	}
+	bl0 := scalarsBytes(fd.CopyBlinds())
 	switch p.mode {
 	case 0:
-		return p.cl0().Finalize(fd, ev)
+		out, err = p.cl0().Finalize(fd, ev)
 	case 1:
-		return p.cl1(pk).Finalize(fd, ev)
+		out, err = p.cl1(pk).Finalize(fd, ev)
 	default:
-		return p.cl2(pk).Finalize(fd, ev, info)
+		out, err = p.cl2(pk).Finalize(fd, ev, info)
 	}
+	// (not reached when Finalize panics: the caller's vlib.Catch sees the original panic)
+	noteOperands(sn, "Finalize")
+	if !bytes.Equal(bl0, scalarsBytes(fd.CopyBlinds())) {
+		operandViolations = append(operandViolations, "Finalize: the call changed the blinds kept in its FinalizeData")
+	}
+	return out, err
 }
 
-func (p party) fullEvaluate(input, info []byte) ([]byte, error) {
+func (p party) fullEvaluate(input, info []byte) (out []byte, err error) {
+	sn := new(opSnap).bytes("input", input).bytes("info", info).add("sk", func() []byte { return keyBytes(p.sk) })
+	defer func() { noteOperands(sn, "FullEvaluate") }()
 	switch p.mode {
 	case 0:
 		return p.sv0().FullEvaluate(input)
@@ -152,6 +179,8 @@ func (p party) fullEvaluate(input, info []byte) ([]byte, error) {
 }
 
 func (p party) verifyFinalize(input, info, out []byte) bool {
+	sn := new(opSnap).bytes("input", input).bytes("info", info).bytes("output", out)
+	defer func() { noteOperands(sn, "VerifyFinalize") }()
 	switch p.mode {
 	case 0:
 		return p.sv0().VerifyFinalize(input, out)
@@ -236,6 +265,7 @@ func oprfCase(t *rapid.T, si suiteInfo, mode byte) {
 	sub := "oprf/" + si.name + "/" + mname
 	ref := refSuite{id: si.name, g: g, h: si.h, mode: mode}
 	vlib.Eval(sub)
+	defer reportOperands(t, key("operand-changed"))
 
 	// ---- server key
 	var sk *oprf.PrivateKey
@@ -1151,6 +1181,7 @@ func TestC16Lengths(t *testing.T) {
 				ref := refSuite{id: si.name, g: si.g, h: si.h, mode: mode}
 				vlib.Check(t, vlib.N(40, 400), func(t *rapid.T) {
 					vlib.Eval(sub)
+					defer reportOperands(t, key("operand-changed"))
 					seed := vlib.EdgeBytes(t, 32, "seed")
 					kinfo := drawLen(t, "keyInfo")
 					vlib.Class(sub, "keyinfolen="+lenClass(len(kinfo)))
